@@ -20,7 +20,7 @@ RULE = ("scenario = server history of <=12 frames (text, binary, fragmented, pin
         "(callbacks take zero virtual time); a raising callback is immediately followed by on_error(that exception).  "
         "non-trivial = at least one burst of >=2 frames, a fragmented message or a raising callback; distinct = (frame "
         "kinds per burst, callback subset, raising subset, transport); the serving connection may be reached through a redirect "
-        "from a URL of the other scheme (ws:// redirected to wss:// and the reverse)")
+        "from a URL of the other scheme (ws:// redirected to wss:// and the reverse); built-in loop and the external-dispatcher stub")
 ASSUMPTIONS = ["on_cont_message is never set (it switches the connection to per-fragment delivery)",
                "on_close / return value / errors not caused by callbacks are C14's subject"]
 EVENT_CBS = ("on_open", "on_message", "on_data", "on_ping", "on_pong")
@@ -84,6 +84,8 @@ def gen(rng):
     if rng.random() < 0.12:
         # the application's URL has the other scheme and is redirected to the serving connection
         sc["cross_redirect"] = True
+    elif rng.random() < 0.15 and end["kind"] != "close_reset":
+        sc["dispatcher"] = "rel"  # external dispatcher (stub): read callbacks driven by descriptor readiness only
     return sc
 
 
@@ -108,6 +110,9 @@ def expand(item, seed):
             for tls in (False, True):
                 yield {"items": REF_ITEMS, "end": {"t": 3 * S, "kind": "close", "body_hex": "03e8"}, "callbacks": cbs,
                        "tls": tls, "sizes": [] if tls else [2], "seed": 1}
+                if mask % 4 == 2:
+                    yield {"items": REF_ITEMS, "end": {"t": 3 * S, "kind": "close", "body_hex": "03e8"}, "callbacks": cbs,
+                           "tls": tls, "sizes": [], "seed": 1, "dispatcher": "rel"}
                 if mask % 4 == 1:
                     yield {"items": REF_ITEMS, "end": {"t": 3 * S, "kind": "close_reset", "body_hex": "03e8"}, "callbacks": cbs,
                            "tls": tls, "sizes": [], "seed": 1}
@@ -188,12 +193,17 @@ def run(sc, choices=None):
         raise InvalidScenario(str(e))
     link = {"sizes": [max(1, int(x)) for x in sc.get("sizes", [])]} if sc.get("sizes") and not tls else {}
     asc = {"conns": [{"script": script, "on_ping": {"mode": "never"}, "on_close": {"mode": "reply"}}], "callbacks": cbs,
-           "run": {"tls": tls, "cross_redirect": bool(sc.get("cross_redirect"))}, "link": link, "seed": sc.get("seed", 1), "time_cap_s": 600}
+           "run": {"tls": tls, "cross_redirect": bool(sc.get("cross_redirect")), "dispatcher": sc.get("dispatcher")}, "link": link, "seed": sc.get("seed", 1), "time_cap_s": 600}
     out = run_app(asc, choices)
     w = out["world"]
     res.absorb(w, exclude_kinds=("send", "recv", "deliver", "recv_call") if tls or sc.get("cross_redirect") else ())
     run = out["runs"][0]
-    ctx = ("tls" if tls else "plain") + ("/redirected_from_other_scheme" if sc.get("cross_redirect") else "")
+    if sc.get("dispatcher") not in (None, "rel") or (sc.get("dispatcher") and (sc.get("cross_redirect") or end["kind"] == "close_reset")):
+        # (under an external dispatcher a failed write is handed to the disconnect handler by the dispatcher itself, from
+        # its loop: what is still delivered after that is the dispatcher's timing, not pinned down here)
+        raise InvalidScenario("dispatcher")
+    ctx = ("tls" if tls else "plain") + ("/redirected_from_other_scheme" if sc.get("cross_redirect") else "") + \
+          ("/external_dispatcher" if sc.get("dispatcher") else "")
     if run.aborted:
         res.violate("run_forever_hangs", ctx, f"aborted: {run.aborted}")
         return _finish(res, sc, allspec, cbs, tls)
@@ -291,7 +301,7 @@ def _s(x):
 def _finish(res, sc, allspec, cbs, tls):
     bursts = [tuple((f["fin"], f["op"]) for f in it["frames"]) for it in sc["items"]]
     raising = tuple(sorted(n for n, b in cbs.items() if b and b.get("do") == "raise"))
-    res.sig = repr((bursts, tuple(sorted(cbs)), raising, tls, sc["end"]["kind"], bool(sc.get("cross_redirect"))))
+    res.sig = repr((bursts, tuple(sorted(cbs)), raising, tls, sc["end"]["kind"], bool(sc.get("cross_redirect")), sc.get("dispatcher")))
     res.nontrivial = any(len(b) > 1 for b in bursts) or bool(raising) or any(not f.fin for f, _, _ in allspec)
     if any(len(b) > 1 for b in bursts):
         res.probes["burst"] = 1
@@ -302,4 +312,4 @@ def _finish(res, sc, allspec, cbs, tls):
 
 def sample_view(sc, r):
     return {"bursts": [{"t": it["t"], "frames": [[f["fin"], f["op"], len(f["hex"]) // 2] for f in it["frames"]]} for it in sc["items"]],
-            "end": sc["end"], "callbacks": sc["callbacks"], "tls": sc.get("tls"), "chunk_sizes": sc.get("sizes"), "cross_redirect": sc.get("cross_redirect")}
+            "end": sc["end"], "callbacks": sc["callbacks"], "tls": sc.get("tls"), "chunk_sizes": sc.get("sizes"), "cross_redirect": sc.get("cross_redirect"), "dispatcher": sc.get("dispatcher")}
